@@ -135,7 +135,9 @@ func reqLog(query, accept string, gz bool) Req {
 }
 
 func reqLogon(user string) Req {
-	return Req{Route: "POST /services/admin/logon", Method: "POST", Path: "/services/admin/logon", Auth: "basic:" + user}
+	// a logon may rewrite the user record (last token time, hash upgrade): the
+	// stored hash is read back afterwards
+	return Req{Route: "POST /services/admin/logon", Method: "POST", Path: "/services/admin/logon", Auth: "basic:" + user, ReadUser: user}
 }
 
 func reqToken(client, grant, extra string, inBody bool) Req {
